@@ -69,6 +69,7 @@ type obs struct {
 	pv            any
 	stuck         bool
 	afterError    int // bytes handed out by Read calls made after the first error
+	eofAfterError bool // a Read made after the first error reported a clean end of stream
 }
 
 func drive(r *mon.Run, id string, d draft, stream []byte, digest string, limit uint64, sc sched, rsHint int) obs {
@@ -126,7 +127,11 @@ func drive(r *mon.Run, id string, d draft, stream []byte, digest string, limit u
 					o.out = append(o.out, dst[:k2]...)
 					o.afterError += k2
 					if e2 == io.EOF {
-						return // the alteration was already reported by the first error; only bytes released afterwards matter
+						// the alteration was already reported by the first error; what still matters is what was released and
+						// whether "end of stream" is claimed with only a part of the payload delivered (a caller that retries
+						// after a transient error would take the part for the whole)
+						o.eofAfterError = true
+						return
 					}
 				}
 				return
@@ -156,7 +161,7 @@ func judge(r *mon.Run, d draft, stream []byte, digest string, limit uint64, comm
 	key := fmt.Sprintf("mi15:%s:%s:%s:%s:%d", d.enc, mon.Short(stream), digest, sc.name, limit)
 	det := map[string]any{"draft": string(d.enc), "stream_hex": mon.Hex(stream), "digest": digest, "limit": limit, "schedule": sc.name, "mutation": mut,
 		"class": class, "committed_payload_hex": mon.Short(committed), "output_hex": mon.Short(o.out), "clean_eof": o.cleanEOF,
-		"error": fmt.Sprint(o.err), "bytes_released_after_the_first_error": o.afterError, "newdecoder_error": fmt.Sprint(o.newErr), "consumed_by_newdecoder": o.consumedAtNew,
+		"error": fmt.Sprint(o.err), "bytes_released_after_the_first_error": o.afterError, "eof_after_error": o.eofAfterError, "newdecoder_error": fmt.Sprint(o.newErr), "consumed_by_newdecoder": o.consumedAtNew,
 		"reference_auth_prefix": mon.Short(ref.Auth), "reference_complete": ref.Complete, "reference_refused": ref.Refused}
 	outcome := ""
 	viol := func(kind, what string) {
@@ -176,6 +181,8 @@ func judge(r *mon.Run, d draft, stream []byte, digest string, limit uint64, comm
 		viol("UNAUTHENTICATED-OUTPUT", fmt.Sprintf("decoder released %d bytes although the digest authenticates nothing in this stream", len(o.out)))
 	case hasCommitted && !bytes.HasPrefix(committed, o.out):
 		viol("UNAUTHENTICATED-OUTPUT", fmt.Sprintf("decoder output (%d bytes) is not a prefix of the payload the digest commits to", len(o.out)))
+	case o.eofAfterError && hasCommitted && !bytes.Equal(o.out, committed):
+		viol("EOF-AFTER-ERROR-WITH-PARTIAL-PAYLOAD", fmt.Sprintf("after reporting %v the decoder reports a clean end of stream although only %d of %d committed bytes were delivered", o.err, len(o.out), len(committed)))
 	case o.cleanEOF && hasCommitted && !bytes.Equal(o.out, committed):
 		viol("EARLY-EOF", fmt.Sprintf("clean EOF after %d of %d committed bytes", len(o.out), len(committed)))
 	case o.cleanEOF && !hasCommitted:
